@@ -2,7 +2,7 @@
 import re
 
 from analysis import (flow_key, Prov, Guards, fmt, fmt_short, walk, roots, short, canon, comparison, callee_matches, must_pass,
-                      const_int_of, writes_into, aliases_of, async_param_names, field_writes)
+                      const_int_of, writes_into, aliases_of, async_param_names, field_writes, structural_eq)
 from facts import AnchorError, strip_closure
 from harness import Rule, guarded
 from c01 import bool_pass_edges
@@ -244,6 +244,11 @@ def r1_r3(ctx):
             a = [F(pp.operand(x)) for x in t.args]
             r3.check(a[1] == want_addr("Handshake"), "process_inbound_packet -> handle_auth_message: address = (datagram source, header src_id)", "process_inbound_packet|handshake-address",
                      "process_inbound_packet passes handle_auth_message the address %s" % a[1][:300], loc=pi.loc(t.line))
+    # -- the tables (sessions, requests, challenges) are keyed by NodeAddress: two addresses are the same key only if both parts are equal
+    ok_eq, how = structural_eq(facts, "crate::node_info::NodeAddress")
+    r3.check(ok_eq, "NodeAddress equality is structural over (socket_addr, node_id) [%s]" % how, "NodeAddress|equality",
+             "NodeAddress, the key of the session / request / challenge tables, does not compare structurally (%s): a datagram from another source address or "
+             "node id can select the peer's session" % how, loc=None)
     an = async_param_names(facts, H + "handle_auth_message")
     pa = Prov(ha, facts)
     for bi, t in ha.calls():
